@@ -2,6 +2,7 @@
    This file holds only the statement, the property theorems and their non-vacuity examples. *)
 From PlzV Require Import Base.Harness Model.C16_Syntax Model.C16_Ops Model.C16_Prim Model.C16_Eval Model.C16.
 From PlzV Require Import Proof.C17 Proof.C17_Inv Proof.C17_Main Proof.C17_NoConst Proof.C17_Scopes Proof.C17_Iso Proof.C17_Examples.
+From PlzV Require Import Proof.C17_Sim1 Proof.C17_Sim7 Proof.C17_Sim8.
 
 (* For every subincluded file and every two packages interpreted on one interpreter (so that they share the
    cached, frozen globals of the subinclude): what the second package computes is what it computes when it is
@@ -42,8 +43,19 @@ Print Assumptions C17_refuted.
    (7) The control part of the state (current scope, open local scopes, cache, the other file scopes) is preserved by
        the whole evaluator, without any hypothesis on the heap.
 
-   NOT proved: that a package's OWN results do not depend on the objects an earlier package allocated (the evaluator
-   is parametric in fresh array / dict / function ids) - the harness compares `b alone` with `b after a` instead. *)
+   (8) PARAMETRICITY IN FRESH IDS - the other half of the statement.  From an interpreter at rest (RestInv) whose state is
+       closed (every id that occurs in it names an existing object; `closed_stateb`, an executable test, true of every
+       state the interpreter reaches), ANY BUILD files bs interpreted after ANY BUILD files h have exactly the outcomes
+       (the globals rendered right after each file ran, or the failure) they have when interpreted without h.  Proved by
+       a binary simulation over the WHOLE evaluator (Proof/C17_Sim1-7: every expression, statement, comprehension, user
+       function call, map/filter/reduce, every builtin and method of the model's asp dialect; induction on the fuel):
+       the ids of the two runs differ by a fixed renaming (an id below the number of objects the two states share is
+       itself, an id above is shifted by the number of objects h left behind), every primitive commutes with the
+       renaming, and `render` does not see it.  (8') both halves together for h ++ bs.
+       The hypotheses are those of (6) plus closedness; as in (1)-(7) every subincludable file is already cached.
+
+   NOT proved: that first-time Subinclude of an uncached file (parse, optimise, constant folding, scope.Freeze)
+   establishes RestInv in general - it is computed on the example states by the sound executable test. *)
 Definition C17_partial_statement : Prop :=
   (* (1) *)
   (forall (ca cd : nat -> mode) (pf ls : nat -> bool) (cs : list value) (defs : list (str * prog)) fuel builds st outs st',
@@ -91,6 +103,21 @@ Definition C17_partial_statement : Prop :=
         closedb rfuel st (length (arrays st)) (length (dicts st)) (length (funcs st)) v = true ->
         render Asp rfuel st' v = render Asp rfuel st v)
   /\ (forall defs D st, rest_invb defs D st = true -> RestInv defs D st)
+  (* (8) a package computes the same results whether or not other packages were parsed before it *)
+  /\ (forall defs fuel D st0 h outs_h st1 bs,
+        RestInv defs D st0 -> closed_stateb st0 = true ->
+        Forall (fun p => no_const p = true) h ->
+        run_builds Asp defs fuel h st0 = (outs_h, st1) ->
+        map (@snd _ _) (fst (run_builds Asp defs fuel bs st1)) = map (@snd _ _) (fst (run_builds Asp defs fuel bs st0)))
+  (* (8') both halves: the later files compute what they compute without the earlier ones, and what the earlier ones
+     computed is not changed by the later ones *)
+  /\ (forall defs fuel D st0 h bs outs st',
+        RestInv defs D st0 -> closed_stateb st0 = true ->
+        Forall (fun p => no_const p = true) (h ++ bs) ->
+        run_builds Asp defs fuel (h ++ bs) st0 = (outs, st') ->
+        exists o1 st1 o2, run_builds Asp defs fuel h st0 = (o1, st1) /\ run_builds Asp defs fuel bs st1 = (o2, st') /\ outs = o1 ++ o2
+          /\ map (@snd _ _) o2 = map (@snd _ _) (fst (run_builds Asp defs fuel bs st0))
+          /\ unchanged st0 st1 /\ unchanged st1 st')
   (* (7) the control part: the evaluator preserves the current scope, the number of open local scopes and the cache,
      and writes no file scope but the current one, and that only at the top level of a file *)
   /\ (forall defs fuel p st e oof st', cachedall defs st -> exec_top Asp defs fuel p st = (e, oof, st') -> sc st st')
@@ -116,10 +143,11 @@ Definition C17_partial_statement : Prop :=
 Theorem C17_partial : C17_partial_statement.
 Proof.
   exact (conj frame_builds (conj packages_write_nothing_imported (conj build_files_write_nothing_imported (conj imported_values_unchanged
-        (conj later_packages_change_nothing (conj unchanged_render (conj rest_invb_sound (conj top_sc
+        (conj later_packages_change_nothing (conj unchanged_render (conj rest_invb_sound
+        (conj package_result_independent_of_earlier_packages (conj packages_do_not_interfere (conj top_sc
         (conj deep_frozen_vok (conj freeze_flat_list_deep_frozen (conj freeze_nested_not_deep_frozen
         (conj frozen_stateb_sound (conj frozen_index_assign_fails (conj frozen_list_is_readonly
-        (conj arr_write_other arr_write_commute))))))))))))))).
+        (conj arr_write_other arr_write_commute))))))))))))))))).
 Qed.
 Print Assumptions C17_partial.
 
@@ -153,3 +181,99 @@ Example C17_partial_nonvacuous :
   /\ frozen_stateb [(lbl, d_mk)] [] [] (state_after d_mk) = false
   /\ frozen_stateb [(lbl, d_dflt)] [] [] (state_after d_dflt) = false.
 Proof. exact frozen_examples. Qed.
+
+(* (8): the hypotheses hold on the state Subinclude leaves for d_lib (at rest, closed); the earlier package xa allocates
+   (so the renaming between the two runs is not the identity); the later package xc allocates lists, a dict and a
+   function, calls it through map(), formats and sorts - its globals are computed; computed directly, the outcomes of
+   [xc; xb] after xa equal those without xa; RestInv fails on the states of the three refuting classes.  The second
+   example is the theorem applied to that instance. *)
+Example C17_parametricity_nonvacuous :
+  rest_invb [(lbl, d_lib)] (Dead4 [] [0] [] []) st_lib = true
+  /\ closed_stateb st_lib = true
+  /\ forallb no_const [xa; xb; xc] = true
+  /\ (Nat.ltb (length (arrays st_lib)) (length (arrays st_lib_after_xa)) && Nat.ltb (length (fscopes st_lib)) (length (fscopes st_lib_after_xa))) = true
+  /\ match map (@snd _ _) (fst (run_builds Asp [(lbl, d_lib)] FUEL [xc] st_lib)) with
+     | [OGlobals a _] =>
+         assoc_get (s "own") a = Some (OList false 0 [OInt 3; OInt 1; OInt 2; OInt 4])
+         /\ assoc_get (s "m") a = Some (OList false 0 [OInt 2; OInt 3])
+         /\ assoc_get (s "c") a = Some (OList false 1 [OInt 1; OInt 2])
+         /\ assoc_get (s "t") a = Some (OStr (s "[3 1 2 4]-4"))
+         /\ assoc_get (s "so") a = Some (OList false 0 [OInt 1; OInt 2; OInt 3; OInt 4])
+         /\ assoc_get (s "g") a = Some (OFunc (s "g"))
+     | _ => False
+     end
+  /\ list_eqb outcome_eqb (map (@snd _ _) (fst (run_builds Asp [(lbl, d_lib)] FUEL [xc; xb] st_lib_after_xa)))
+                          (map (@snd _ _) (fst (run_builds Asp [(lbl, d_lib)] FUEL [xc; xb] st_lib))) = true
+  /\ rest_invb [(lbl, d_nested)] (Dead4 [] [] [] []) (state_after d_nested) = false
+  /\ rest_invb [(lbl, d_mk)] (Dead4 [] [] [] []) (state_after d_mk) = false
+  /\ rest_invb [(lbl, d_dflt)] (Dead4 [] [] [] []) (state_after d_dflt) = false.
+Proof. exact sim_examples. Qed.
+
+Example C17_parametricity_applied :
+  map (@snd _ _) (fst (run_builds Asp [(lbl, d_lib)] FUEL [xc; xb] st_lib_after_xa)) =
+  map (@snd _ _) (fst (run_builds Asp [(lbl, d_lib)] FUEL [xc; xb] st_lib)).
+Proof. exact xc_after_xa_by_theorem. Qed.
+
+(* ---- follow-up (seeded mutations m1 / m3; appended, see Proof/C17_Followup.v) ----
+   The two facts about the anchored code that the frame theorem uses implicitly, for the code gotrans TRANSLATES
+   (Gen/C17Freeze.v c17_dict_union_steps, c17_scope_freeze_skips) and for the model's evaluator:
+   (U)  `a | b` on a plain or frozen receiver, for ALL operands (the empty ones included), evaluates to a dict that did not
+        exist before: it is `vok` in every classification the invariant admits, no array and no existing dict changes;
+        the translated `case Union:` clause is total, returns a new dict on every input, and is the evaluator's union;
+   (U') in general: every step program without an operand return (steps_fresh) returns a new dict from every point of
+        its execution; the translated clause passes that test (this is what a fast path breaks);
+   (F)  scope.Freeze as translated is the model's freeze_env, and after it NO name of the file scope - whatever its
+        spelling - holds a mutable reference (list / dict); in general, for every name filter, every name the loop does
+        not skip is covered, and a skipped name keeps its value unchanged;
+   (F') a cached export that is still a mutable reference to an object existing when the packages start contradicts
+        `frozen_state`, the hypothesis of (2), (2'), (3) of C17_partial. *)
+From PlzV Require Import Gen.C17Freeze Proof.C17_Followup.
+
+Definition C17_followup_statement : Prop :=
+  (* (U) *)
+  (forall (ca cd : nat -> mode) (pf : nat -> bool) fuel a i j st v st',
+     dict_ref a i -> (forall k, cd k <> Free -> k < length (dicts st)) ->
+     apply_bin Asp fuel Union a (VDict j) st = Ok (v, st') ->
+     v = VDict (length (dicts st)) /\ vok ca cd pf v /\ arrays st' = arrays st
+     /\ (forall k, k < length (dicts st) -> dict_of st' k = dict_of st k))
+  /\ (forall i j st, exists st',
+        union_translated i j st = Some (VDict (length (dicts st)), st') /\ arrays st' = arrays st
+        /\ (exists m, dicts st' = dicts st ++ [m]) /\ (forall k, k < length (dicts st) -> dict_of st' k = dict_of st k))
+  /\ (forall fuel a i j st, dict_ref a i -> NoDup (map (@fst _ _) (dict_of st i)) ->
+        apply_bin Asp fuel Union a (VDict j) st = match union_translated i j st with Some r => Ok r | None => Err EUnsupported end)
+  (* (U') *)
+  /\ (forall steps i j ret st v st', steps_fresh steps = true -> run_union steps i j ret st = Some (v, st') ->
+        v = VDict (length (dicts st)) /\ arrays st' = arrays st /\ (exists m, dicts st' = dicts st ++ [m])
+        /\ (forall k, k < length (dicts st) -> dict_of st' k = dict_of st k))
+  /\ steps_fresh c17_dict_union_steps = true
+  (* (F) *)
+  /\ (forall fuel e st, freeze_env_f c17_scope_freeze_skips fuel e st = freeze_env fuel e st)
+  /\ (forall fuel e st e' st', freeze_env fuel e st = Ok (e', st') ->
+        map (@fst _ _) e' = map (@fst _ _) e /\ Forall (fun kv => is_mutable_ref (snd kv) = false) e')
+  /\ (forall skips fuel e st e' st', freeze_env_f skips fuel e st = Ok (e', st') ->
+        map (@fst _ _) e' = map (@fst _ _) e
+        /\ Forall (fun kv => skipped skips (fst kv) = false -> is_mutable_ref (snd kv) = false) e')
+  /\ (forall skips fuel n v r st e' st', skipped skips n = true ->
+        freeze_env_f skips fuel ((n, v) :: r) st = Ok (e', st') -> hd_error e' = Some (n, v))
+  (* (F') *)
+  /\ (forall defs dead_a dead_d st label e n v,
+        List.In (label, e) (subcache st) -> List.In (n, v) e ->
+        match v with VList sl => s_arr sl < length (arrays st) | VDict i => i < length (dicts st) | _ => False end ->
+        ~ frozen_state defs dead_a dead_d st).
+
+Theorem C17_followup : C17_followup_statement.
+Proof.
+  exact (conj model_union_result_free (conj union_always_new (conj union_translated_is_apply_bin
+        (conj fresh_steps_return_new_dict (conj union_steps_pinned (conj freeze_env_translated_is_model
+        (conj scope_freeze_covers_every_name (conj freeze_env_f_covers (conj skipped_name_stays_mutable
+         mutable_export_not_frozen_state))))))))).
+Qed.
+Print Assumptions C17_followup.
+
+(* Non-vacuity: IMPORTED | {} on a concrete heap is a new dict, with the fast path of m1 it is the receiver; the unchanged
+   scope.Freeze freezes a private list, with the filter of m3 it stays a mutable list. *)
+Example C17_followup_nonvacuous :
+  union_translated 0 1 ex_st = Some (VDict 2, set_dicts [[(s "opt", VStr (s "-O2"))]; []; [(s "opt", VStr (s "-O2"))]] empty_state)
+  /\ freeze_env_f [[95%N]] 4 ex_env ex_st2
+     = Ok ([(s "PUB", VFrozenList (Slice 0 0 1 1)); (s "_PRIV", VList (Slice 1 0 1 1)); (s "N", VInt 1)], ex_st2).
+Proof. exact (conj (proj1 union_examples) (proj1 (proj2 freeze_examples))). Qed.
